@@ -31,3 +31,50 @@ Theorem C05_variants_share_the_column_source :
    ("sqlalchemy", "ensure_has_primary_key", "intermediate_repr['params'], force_pk_id");
    ("sqlalchemy_hybrid", "sqlalchemy_table", "docstring_format=docstring_format, emit_default_doc=emit_default_doc, emit_original_whitespace=emit_original_whitespace, force_pk_id=force_pk_id, intermediate_repr=intermediate_repr, name='__table__', table_name=table_name or intermediate_repr['name'], word_wrap=word_wrap")]%string.
 Proof. vm_compute. reflexivity. Qed.
+
+(* ---- one column through the emitter and the parser (Model/SqlCol.v: param_to_sqlalchemy_column_calls with its argument /
+   keyword helpers, and column_call_to_param; a Column(...) call is the record of its arguments; compared with the code on
+   generated parameters each run).  [plain_doc d]: d has no "[PK]" / "[FK" in front, is not empty and does not end with ".".
+   [keeps_typ t]: t is not the bare `dict` (JSON reads back as Optional[dict] -- see C05_column_refuted). *)
+From CDD Require SqlCol SqlColProofs.
+
+(* for EVERY such description and every type of the domain (int, float, str, bool, Literal of any members, Optional of those):
+   name-less column -> Column(...) -> parameter is the identity *)
+Theorem C05_column_roundtrip : forall t d, SqlColProofs.keeps_typ t = true -> SqlColProofs.plain_doc d = true ->
+  SqlCol.parse_col (SqlCol.emit_col {| SqlCol.p_typ := t; SqlCol.p_doc := Some d; SqlCol.p_default := None |})
+  = {| SqlCol.p_typ := t; SqlCol.p_doc := Some d; SqlCol.p_default := None |}.
+Proof. exact SqlColProofs.col_roundtrip_plain. Qed.
+Print Assumptions C05_column_roundtrip.
+
+(* the primary-key marker becomes primary_key=True, the rest of the description the comment, and both come back *)
+Theorem C05_column_pk_marker : forall t d, SqlColProofs.keeps_typ t = true -> SqlColProofs.head_ok d = true ->
+  match last_opt d with Some c => negb (N.eqb c SqlCol.DOT) | None => false end = true ->
+  let p := {| SqlCol.p_typ := t; SqlCol.p_doc := Some (s2l "[PK] " ++ d); SqlCol.p_default := None |} in
+  SqlCol.c_pk (SqlCol.emit_col p) = true /\ SqlCol.c_comment (SqlCol.emit_col p) = Some d /\ SqlCol.parse_col (SqlCol.emit_col p) = p.
+Proof. exact SqlColProofs.col_roundtrip_pk. Qed.
+Print Assumptions C05_column_pk_marker.
+
+(* a non-None default on a non-Optional column: NOT NULL, default kept, the description comes back with a full stop *)
+Theorem C05_column_default : forall b d v, b <> SqlCol.BDict -> SqlColProofs.plain_doc d = true -> SqlCol.is_none_default (SqlCol.DVal v) = false ->
+  let p := {| SqlCol.p_typ := {| SqlCol.t_opt := false; SqlCol.t_base := b |}; SqlCol.p_doc := Some d; SqlCol.p_default := Some (SqlCol.DVal v) |} in
+  SqlCol.c_nullable (SqlCol.emit_col p) = Some false
+  /\ SqlCol.parse_col (SqlCol.emit_col p)
+     = {| SqlCol.p_typ := {| SqlCol.t_opt := false; SqlCol.t_base := b |}; SqlCol.p_doc := Some (d ++ [SqlCol.DOT]); SqlCol.p_default := Some (SqlCol.DVal v) |}.
+Proof. exact SqlColProofs.col_roundtrip_default. Qed.
+
+(* Optional[..] with the None default stays Optional (nullable=True) and keeps None *)
+Theorem C05_column_optional_none : forall b d, SqlColProofs.plain_doc d = true ->
+  let p := {| SqlCol.p_typ := {| SqlCol.t_opt := true; SqlCol.t_base := b |}; SqlCol.p_doc := Some d; SqlCol.p_default := Some SqlCol.DNoneStr |} in
+  SqlCol.c_nullable (SqlCol.emit_col p) = Some true
+  /\ SqlCol.parse_col (SqlCol.emit_col p)
+     = {| SqlCol.p_typ := {| SqlCol.t_opt := true; SqlCol.t_base := b |}; SqlCol.p_doc := Some (d ++ [SqlCol.DOT]); SqlCol.p_default := Some SqlCol.DNoneStr |}.
+Proof. exact SqlColProofs.col_roundtrip_optional_none. Qed.
+
+(* outside the stated domain, as facts about the faithful model: Optional with a non-None default comes back non-Optional; trailing
+   full stops of a description are dropped; the bare dict comes back Optional[dict] *)
+Theorem C05_column_refuted :
+  SqlCol.p_typ (SqlCol.parse_col (SqlCol.emit_col {| SqlCol.p_typ := {| SqlCol.t_opt := true; SqlCol.t_base := SqlCol.BInt |}; SqlCol.p_doc := Some (s2l "n"); SqlCol.p_default := Some (SqlCol.DVal (s2l "5")) |}))
+    = {| SqlCol.t_opt := false; SqlCol.t_base := SqlCol.BInt |}
+  /\ SqlCol.p_doc (SqlCol.parse_col (SqlCol.emit_col {| SqlCol.p_typ := {| SqlCol.t_opt := false; SqlCol.t_base := SqlCol.BInt |}; SqlCol.p_doc := Some (s2l "the a.."); SqlCol.p_default := None |})) = Some (s2l "the a")
+  /\ SqlCol.p_typ (SqlCol.parse_col (SqlCol.emit_col {| SqlCol.p_typ := {| SqlCol.t_opt := false; SqlCol.t_base := SqlCol.BDict |}; SqlCol.p_doc := Some (s2l "d"); SqlCol.p_default := None |})) = {| SqlCol.t_opt := true; SqlCol.t_base := SqlCol.BDict |}.
+Proof. exact SqlColProofs.col_refuted. Qed.
